@@ -364,6 +364,11 @@ func checkC14(c *Check) {
 		c.Ob("R6", "the hostnames released are the hostnames reserved", run.Pos(), resArg != "" && resArg == relArg, "reserved "+short(resArg)+" but released "+short(relArg))
 	}
 	c.hostnameNormalisation()
+	c.serviceClientSends("R7")
+	// the manifest the manager receives is the newest one the manifest manager accepted (shared with C20-R4), and the
+	// group a manager is created with is its own (no pointer to a per-loop variable handed to several managers)
+	c.announcesLatestManifest("R4")
+	c.loopVarAddressEscapes("R4", []string{"provider/cluster"})
 	c.inventoryClientRules("R6")
 	c.cancelBeforeDrain("R3", l.Func("provider/cluster", "deploymentMonitor", "run"))
 	// the manager's exit waits for the withdrawal worker: a withdrawal that waits for an in-flight broadcast before
@@ -587,4 +592,48 @@ func (c *Check) hostnameNormalisation() {
 func reachableFromNoSelect(from, to ssa.Instruction) bool {
 	fn := from.Parent()
 	return !mustPassFrom(fn, from, to, func(i ssa.Instruction) bool { _, ok := i.(*ssa.Select); return ok }) && reachableFrom(from, to)
+}
+
+// serviceClientSends: a method that hands a request to a service loop over a channel does so in a select that also
+// watches the service's shutdown: once the loop has exited nobody receives, and a bare send blocks its caller for
+// ever (the manifest manager validating a submission, the deployment manager on its way out). Applied to the
+// hostname service's entry points; shared by C14-R7 and C20-R2.
+func (c *Check) serviceClientSends(rule string) {
+	l := c.L
+	n := 0
+	for _, fn := range l.pkgFuncs("provider/cluster") {
+		if fn.Signature.Recv() == nil || !strings.HasSuffix(fn.Signature.Recv().Type().String(), "hostnameService") || fn.Name() == "run" {
+			continue
+		}
+		for _, g := range fnAndClosuresDeep(fn) {
+			eachInstr(g, func(i ssa.Instruction) {
+				switch x := i.(type) {
+				case *ssa.Send:
+					cs := Sym(x.Chan)
+					if strings.HasSuffix(cs, "hs.requests") || strings.HasSuffix(cs, "hs.releases") {
+						n++
+						c.Ob(rule, "hostname service: "+fn.Name()+" hands its request to the loop in a select with the shutdown signal", x.Pos(), false, "bare send on "+short(cs)+": after the hostname service stopped the caller blocks for ever")
+					}
+				case *ssa.Select:
+					hasSend, hasDown := false, false
+					for _, st := range x.States {
+						cs := Sym(st.Chan)
+						if st.Dir == types.SendOnly && (strings.HasSuffix(cs, "hs.requests") || strings.HasSuffix(cs, "hs.releases")) {
+							hasSend = true
+						}
+						if st.Dir == types.RecvOnly && strings.Contains(cs, "ShuttingDown(") {
+							hasDown = true
+						}
+					}
+					if hasSend {
+						n++
+						c.Ob(rule, "hostname service: "+fn.Name()+" hands its request to the loop in a select with the shutdown signal", x.Pos(), hasDown && x.Blocking, "the select that sends the request has no shutdown case")
+					}
+				}
+			})
+		}
+	}
+	if n < 3 {
+		c.Info(rule, "hostname service: fewer request hand-overs than on the pinned tree, not decided", token.NoPos, itoa(n)+" found")
+	}
 }
